@@ -166,12 +166,26 @@ let show_res (show : 'a -> string) (r : 'a result) : string =
 
 let frozen (s : sx) : fschema result = freeze_nodes (nat_of_int (L.length (sx_schema_mut s))) (sx_schema_mut s)
 
+(* trailing options of ser / sos: slow | (sink short K) | (sink fixed N) -> (slow, byte budget of the sink).
+   A sink whose `write` takes at most K bytes per call is transparent to write_all (budget None, as a Vec);
+   a fixed-size slice of N bytes accepts N bytes, then write_all fails (Ser.write with s_budget = Some N). *)
+let ser_options (flags : sx list) : bool * coq_N option =
+  L.fold_left (fun (slow, b) o ->
+    match o with
+    | A "slow" -> (true, b)
+    | Ls [A "sink"; A "short"; _] -> (slow, b)
+    | Ls [A "sink"; A "fixed"; n] -> (slow, Some (sx_n n))
+    | _ -> failwith "ser: options") (false, None) flags
+
 let cmd_ser (a : sx list) : string =
   match a with
   | sch :: v :: flags ->
-      let slow = (match flags with [A "slow"] -> true | _ -> false) in
+      let (slow, budget) = ser_options flags in
       (match frozen sch with
-       | Ok fs -> show_res hex (Ser.to_datum fs slow (sx_sval v))
+       | Ok fs ->
+           (match budget with
+            | None -> show_res hex (Ser.to_datum fs slow (sx_sval v))
+            | Some _ -> show_res hex (fst (SerHistory.hist_step fs slow ([], []) (sx_sval v, budget))))
        | _ -> "(bad-schema)")
   | _ -> failwith "ser: arguments"
 
@@ -411,11 +425,18 @@ let sx_sched s : bool * wans list =
 let show_wout = function
   | WROk -> "ok" | WRErr -> "err" | WRGone -> "gone" | WRPanic _ -> "panic" | WRUnmodelled -> "unmodelled"
 
-(* cw xJSON SCHEMA null BLOCKSIZE xSYNC SINK (meta (xK xV)...) OP... *)
-let cmd_cw (a : sx list) : string =
+(* cw xJSON SCHEMA null BLOCKSIZE xSYNC SINK (meta (xK xV)...) OP...
+   cwraw xJSON SCHEMA CODEC ... : the same writer model for ANY codec with the block compressor taken to be the identity
+   (Container.v is parametric in enc) and the codec's name in the header: the file as it is BEFORE block compression --
+   header, then per block (count, length of the payload, payload = encodings of the block's values, sync). A file of
+   the crate whose block data are replaced by their decompression must be this file. *)
+let cmd_cw_gen (raw : bool) (a : sx list) : string =
   match a with
   | json :: sch :: codec :: bsz :: sync :: sink :: meta :: ops ->
-      if fst (head codec) <> "null" then "(unmodelled)" else
+      let family = fst (head codec) in
+      if (not raw) && family <> "null" then "(unmodelled)" else
+      if not (L.mem family ["null"; "deflate"; "bzip2"; "snappy"; "xz"; "zstandard"]) then "(unmodelled)" else
+      let codec_name = L.map (fun c -> n_of_int (Char.code c)) (L.init (String.length family) (String.get family)) in
       (match frozen sch with
        | Ok fs ->
            let (vectored, sched) = sx_sched sink in
@@ -430,7 +451,7 @@ let cmd_cw (a : sx list) : string =
                                       | ("into_inner", _) -> WIntoInner
                                       | ("drop", _) -> WDrop
                                       | _ -> failwith "bad op") ops in
-           let (r0, st0) = wbuild syncb (sx_bytes json) (L.map n_of_int [110; 117; 108; 108]) user sched in
+           let (r0, st0) = wbuild syncb (sx_bytes json) codec_name user sched in
            (match r0 with
             | WROk ->
                 let (rs, stf) = wrun (fun x -> x) fs (sx_n bsz) syncb vectored st0 wops in
@@ -440,6 +461,8 @@ let cmd_cw (a : sx list) : string =
             | _ -> "(build-err " ^ string_of_int (L.length st0.w_sink) ^ " " ^ hex st0.w_sink ^ ")")
        | _ -> "(bad-schema)")
   | _ -> failwith "cw: arguments"
+let cmd_cw = cmd_cw_gen false
+let cmd_cwraw = cmd_cw_gen true
 
 let show_item = function
   | IValue d -> "(ok " ^ show_dval d ^ ")"
@@ -554,6 +577,17 @@ let cmd_freeze (a : sx list) : string =
        | _ -> "(outoffuel)")
   | _ -> failwith "freeze: arguments"
 
+(* tojson SCHEMA -> (ok xJSON) : the JSON regenerated from a built graph by the writer alone (SchemaJson.schema_json, serialize.rs) *)
+let cmd_tojson (a : sx list) : string =
+  match a with
+  | [sch] ->
+      let g = sx_schema_mut sch in
+      (match SchemaJson.schema_json fuel_big g with
+       | Ok t -> "(ok " ^ hex t ^ ")"
+       | Err _ -> "(err data)"
+       | _ -> "(outoffuel)")
+  | _ -> failwith "tojson: arguments"
+
 (* hist SCHEMA SLOW (job SVAL BUDGET|none)... : results of consecutive to_datum calls on one configuration *)
 let cmd_hist (a : sx list) : string =
   match a with
@@ -573,9 +607,14 @@ let schema_fp (sch : sx) : bytes option =
   match CanonicalForm.fingerprint fuel_big (sx_schema_mut sch) with Ok f -> Some f | _ -> None
 let cmd_sos (a : sx list) : string =
   match a with
-  | [sch; v] ->
+  | sch :: v :: flags ->
+      let (slow, budget) = ser_options flags in
       (match frozen sch, schema_fp sch with
-       | Ok fs, Some fp -> show_res (fun b -> hex b ^ " " ^ hex fp) (SingleObject.so_encode fs fp false (sx_sval v))
+       | Ok fs, Some fp ->
+           show_res (fun b -> hex b ^ " " ^ hex fp)
+             (match budget, flags with
+              | None, [] -> SingleObject.so_encode fs fp false (sx_sval v)
+              | _ -> SingleObject.so_encode_sink fs fp slow budget (sx_sval v))
        | _ -> "(bad-schema)")
   | _ -> failwith "sos: arguments"
 let cmd_sod (a : sx list) : string =
@@ -823,6 +862,7 @@ let run_case (line : string) : string =
          | "de" -> cmd_de args
          | "spec" -> cmd_spec args
          | "cw" -> cmd_cw args
+         | "cwraw" -> cmd_cwraw args
          | "cr" -> cmd_cr args
          | "fileparse" -> cmd_fileparse args
          | "parse" -> cmd_parse args
@@ -830,6 +870,7 @@ let run_case (line : string) : string =
          | "sos" -> cmd_sos args
          | "sod" -> cmd_sod args
          | "freeze" -> cmd_freeze args
+         | "tojson" -> cmd_tojson args
          | "derive" -> cmd_derive args
          | "codecloop" -> cmd_codecloop args
          | "snappy" -> cmd_snappy args
